@@ -37,7 +37,7 @@ THEOREM_MODULES.append("Yarel.Props.FnsTie.Intern")
 REQUIRED_THEOREMS += ['store_find_index_tie', 'store_find_index_is_findIndex', 'store_get_tie']
 # the writing half (ObjStringStore::insert, adjust_capacity), translated from vm.rs on every run
 THEOREM_MODULES.append("Yarel.Props.FnsTie.InternStoreTie")
-REQUIRED_THEOREMS += ['rehash_loop_tie', 'store_adjust_capacity_tie', 'grow_test_exact', 'store_insert_tie', 'store_insert_on_reachable']
+REQUIRED_THEOREMS += ['rehash_loop_tie', 'store_adjust_capacity_tie', 'grow_test_exact', 'store_insert_tie', 'store_insert_on_reachable', 'store_get_rel']
 # who touches the intern table (inventory regenerated on every run): only new_gc_obj_string, by get and insert; no removal, no other method
 THEOREM_MODULES.append("Yarel.Props.InternSites")
 REQUIRED_THEOREMS += ['intern_table_is_only_looked_up_and_inserted_into', 'intern_table_methods_are_the_modelled_ones']
